@@ -727,6 +727,8 @@ class Repo:
                 for idx, b_, body in expand_macro(arms, args, name):
                     if idx == arm_k:
                         lab = ','.join('%s=%s' % (k, ''.join(t.text for t in v)) for k, v in b_.items())
+                        if lab in [x.strip() for x in entry.opts.get('skip', '').split('|')]:
+                            continue   # listed in the evidence as not under contract
                         res.append(Located(templ, def_file or entry.file, a, b, bindings=b_, label=lab))
             if not res:
                 raise GenError('%s: no invocation reaches this macro arm' % entry.key)
